@@ -14,6 +14,13 @@ from mc.obs import content, wf, mirror, rawtree
 
 IDS = ["M", "N", "K", "J"]
 DIMS = [2, 3, 2, 2]
+DIMS3 = (2, 3, 4)      # pairwise different extents: a 3-cycle of the ranks and its inverse give different shapes
+INT_STYLES = ("absolute", "relative", "linear")      # flatten styles whose result holds int coordinates
+
+
+class Collision(Exception):
+    """Two stored elements of the lowest flattened rank receive the same
+    coordinate in the same fiber: flattenRanks refuses to merge (outside the domain)."""
 
 
 def as_t(c):
@@ -31,13 +38,14 @@ class Model:
     def __init__(self, ids, shape, points):
         self.ids, self.shape, self.points = list(ids), list(shape), dict(points)
         self.shape_known = True      # False once a step's shape rule is not modelled
-        self.relative = set()        # (rank index, "rel") of ranks holding relative coordinates
+        self.kind = ["int"] * len(self.ids)      # what the coordinates of each rank are: int / tuple / pair
+        self.rel = [False] * len(self.ids)       # rank holds partition-relative coordinates (lower half of a relative split)
 
     def copy(self):
-        m = Model(self.ids, self.shape, self.points)
+        m = Model([list(x) if isinstance(x, list) else x for x in self.ids], self.shape, self.points)
         m.shape_known = self.shape_known
-        m.relative = set(self.relative)
-        m.styles = dict(getattr(self, "styles", {}))
+        m.kind = list(self.kind)
+        m.rel = list(self.rel)
         return m
 
 
@@ -63,6 +71,16 @@ def is_flat_rank(rid):
     return isinstance(rid, list)
 
 
+def _style(op):
+    return op[3] if len(op) > 3 else "tuple"
+
+
+def _how(op):
+    """How a split names its rank: 'depth' (depth=), 'rankid' (rankid=) or 'both'
+    (rankid= together with a depth= that names another rank; rankid is documented to override depth)."""
+    return op[4] if len(op) > 4 else "depth"
+
+
 def legal(m, op):
     k = op[0]
     n = len(m.ids)
@@ -70,7 +88,7 @@ def legal(m, op):
         # int-coordinate ranks only; a lower split rank (X.0) may be split again, an upper one (X.1) is not
         rid = m.ids[op[1]] if op[1] < n else None
         return rid is not None and not is_flat_rank(rid) and not str(rid).endswith(".1") and str(rid).count(".") < 2 \
-            and not (op[1], "rel") in m.relative
+            and not m.rel[op[1]]
     if k == "swizzle":
         # swizzleRanks documents rank_ids as a list of strings: tensors holding a
         # flattened rank (list id) are outside its domain
@@ -78,11 +96,42 @@ def legal(m, op):
     if k == "swap":
         return op[1] + 1 < n
     if k == "flatten":
-        return op[1] + op[2] < n
+        d, l, style = op[1], op[2], _style(op)
+        if not d + l < n:
+            return False
+        if style in INT_STYLES:
+            grp = range(d, d + l + 1)
+            if any(m.kind[i] != "int" for i in grp):
+                return False
+            if style == "relative":
+                # documented as the inverse of a relative-coordinate split: the lower rank holds relative coordinates
+                return l == 1 and m.rel[d + 1] and not m.rel[d]
+            if any(m.rel[i] for i in grp):
+                return False
+            if style == "linear":
+                return m.shape_known and all(isinstance(m.shape[i], int) for i in grp)
+        return True
     if k == "unflatten":
         rid = m.ids[op[1]] if op[1] < n else None
-        return is_flat_rank(rid) and len(rid) >= op[2] + 1
+        return is_flat_rank(rid) and len(rid) >= op[2] + 1 and m.kind[op[1]] in ("tuple", "pair")
     return False
+
+
+def _combine(g, style, gshape):
+    if style == "tuple":
+        return flat(g)
+    if style == "pair":
+        return nest_pair(g)
+    if style == "absolute":
+        return g[-1]
+    if style == "relative":
+        return sum(g)
+    if style == "linear":
+        c = 0
+        for x, n_ in zip(g, gshape):
+            c = c * n_ + x
+        return c
+    raise ValueError(style)
 
 
 def apply_model(m, op):
@@ -94,13 +143,13 @@ def apply_model(m, op):
         x = m.ids[d]
         m.ids[d:d + 1] = [x + ".1", x + ".0"]
         m.shape[d:d + 1] = [m.shape[d], m.shape[d]]
+        m.kind[d:d + 1] = ["int", "int"]
+        m.rel[d:d + 1] = [False, bool(rel)]
         if rel:
             m.shape_known = False
-            m.relative = {(i + 1 if i > d else i, t) for i, t in m.relative} | {(d + 1, "rel")}
             m.points = {p[:d] + (p[d] // step * step, p[d] - p[d] // step * step) + p[d + 1:]: v
                         for p, v in m.points.items()}
         else:
-            m.relative = {(i + 1 if i > d else i, t) for i, t in m.relative}
             m.points = {p[:d] + (p[d] // step * step, p[d]) + p[d + 1:]: v for p, v in m.points.items()}
     elif k in ("swizzle", "swap"):
         if k == "swap":
@@ -110,66 +159,104 @@ def apply_model(m, op):
             perm = list(op[1])
         m.ids = [m.ids[i] for i in perm]
         m.shape = [m.shape[i] for i in perm]
+        m.kind = [m.kind[i] for i in perm]
+        m.rel = [m.rel[i] for i in perm]
         m.points = {tuple(p[i] for i in perm): v for p, v in m.points.items()}
     elif k == "flatten":
         d, l = op[1], op[2]
-        style = op[3] if len(op) > 3 else "tuple"
+        style = _style(op)
         grp = []
         for x in m.ids[d:d + l + 1]:
             grp.extend(x if isinstance(x, list) else [x])
-        if any(isinstance(s, tuple) for s in m.shape[d:d + l + 1]):
+        gshape = m.shape[d:d + l + 1]
+        if any(isinstance(s, tuple) for s in gshape):
             m.shape_known = False
-        comb = flat if style == "tuple" else nest_pair
+        if style in INT_STYLES:
+            # flattening never merges: two stored elements of the lowest flattened rank must not meet
+            seen = {}
+            for p in m.points:
+                q = p[:d] + (_combine(p[d:d + l + 1], style, gshape),)
+                if seen.setdefault(q, p[:d + l + 1]) != p[:d + l + 1]:
+                    raise Collision(op)
+        if style == "absolute":
+            nshape = gshape[-1]
+        elif style == "relative":
+            nshape = gshape[0]          # pinned by test_tensor.py::test_flattenRanks_corr_shape
+        elif style == "linear":
+            nshape = 1
+            for x in gshape:
+                nshape *= x
+        else:
+            nshape = _combine(gshape, style, None)
+        m.points = {p[:d] + (_combine(p[d:d + l + 1], style, gshape),) + p[d + l + 1:]: v for p, v in m.points.items()}
         m.ids[d:d + l + 1] = [grp]
-        m.shape[d:d + l + 1] = [comb(m.shape[d:d + l + 1])]
-        m.points = {p[:d] + (comb(p[d:d + l + 1]),) + p[d + l + 1:]: v for p, v in m.points.items()}
-        m.styles = dict(getattr(m, "styles", {}))
-        m.styles[d] = style
+        m.shape[d:d + l + 1] = [nshape]
+        m.kind[d:d + l + 1] = [style if style in ("tuple", "pair") else "int"]
+        m.rel[d:d + l + 1] = [False]
     elif k == "unflatten":
         d, l = op[1], op[2]
         rid = m.ids[d]
         sh = m.shape[d]
-        new_ids = list(rid[:l]) + [rid[l] if len(rid) == l + 1 else list(rid[l:])]
-        new_sh = list(sh[:l]) + [sh[l] if len(sh) == l + 1 else tuple(sh[l:])]
-        m.ids[d:d + 1] = new_ids
-        m.shape[d:d + 1] = new_sh
-
-        pair = getattr(m, "styles", {}).get(d) == "pair"
+        pair = m.kind[d] == "pair"
+        rest_one = len(rid) == l + 1
+        new_ids = list(rid[:l]) + [rid[l] if rest_one else list(rid[l:])]
+        if pair:
+            new_sh = list(cut_pair(sh, l))
+        else:
+            new_sh = list(sh[:l]) + [sh[l] if len(sh) == l + 1 else tuple(sh[l:])]
 
         def cut(c):
             if pair:
                 return cut_pair(c, l)
             return tuple(c[:l]) + ((c[l],) if len(c) == l + 1 else (tuple(c[l:]),))
-        if pair:
-            new_sh = list(cut_pair(sh, l))
-            m.shape[d:d + len(new_ids)] = new_sh
         m.points = {p[:d] + cut(p[d]) + p[d + 1:]: v for p, v in m.points.items()}
+        m.kind[d:d + 1] = ["int"] * l + ["int" if rest_one else m.kind[d]]
+        m.rel[d:d + 1] = [False] * (l + 1)
+        m.ids[d:d + 1] = new_ids
+        m.shape[d:d + 1] = new_sh
     return m
 
 
 def apply_real(t, op, m_before):
     k = op[0]
     if k == "split":
+        kw = {}
+        how = _how(op)
+        ids = t.getRankIds()
+        if how in ("depth",):
+            kw["depth"] = op[1]
+        elif how == "rankid":
+            kw["rankid"] = ids[op[1]]
+        else:       # both: rankid names the rank, depth names its neighbour
+            kw["depth"] = (op[1] + 1) % len(ids)
+            kw["rankid"] = ids[op[1]]
         if len(op) > 3 and op[3]:
-            return t.splitUniform(op[2], depth=op[1], relativeCoords=True)
-        return t.splitUniform(op[2], depth=op[1])
+            kw["relativeCoords"] = True
+        return t.splitUniform(op[2], **kw)
     if k == "swizzle":
         return t.swizzleRanks([t.getRankIds()[i] for i in op[1]])
     if k == "swap":
         return t.swapRanks(depth=op[1])
     if k == "flatten":
-        return t.flattenRanks(depth=op[1], levels=op[2], coord_style=op[3] if len(op) > 3 else "tuple")
+        return t.flattenRanks(depth=op[1], levels=op[2], coord_style=_style(op))
     if k == "unflatten":
         return t.unflattenRanks(depth=op[1], levels=op[2])
     raise ValueError(op)
 
 
-def menu(n):
+def menu(n, second=False):
+    """Ops offered to a tensor of n ranks.  As a second step (the operand is
+    itself a transform's result) additionally: the splits addressed by rank id
+    and by rank id + a depth naming another rank, and the flatten styles whose
+    result holds int coordinates (absolute, linear, relative)."""
     ops = []
     for d in range(n):
         for step in (1, 2):
             ops.append(("split", d, step))
             ops.append(("split", d, step, True))
+        if second:
+            ops.append(("split", d, 2, False, "rankid"))
+            ops.append(("split", d, 2, False, "both"))
     for perm in itertools.permutations(range(n)):
         ops.append(("swizzle", perm))
     for d in range(n - 1):
@@ -177,21 +264,26 @@ def menu(n):
     for d in range(n):
         for l in (1, 2):
             ops.append(("flatten", d, l))
+            if second:
+                for style in INT_STYLES:
+                    ops.append(("flatten", d, l, style))
     for d in range(n):
         for l in (1, 2):
             ops.append(("unflatten", d, l))
     return ops
 
 
-def programs(n0):
-    """All legal op pairs (and the legal triples split;swizzle;flatten-absolute is C09's own) for a tensor of n0 ranks."""
-    base = Model(IDS[:n0], DIMS[:n0], {})
+def programs(n0, dims=None, kinds=None):
+    """All legal op pairs for a tensor of n0 ranks (kinds: only programs made of these op kinds)."""
+    base = Model(IDS[:n0], list(dims) if dims else DIMS[:n0], {})
     out = []
     for a in menu(n0):
-        if not legal(base, a) or a[0] == "unflatten":
+        if not legal(base, a) or a[0] == "unflatten" or (kinds and a[0] not in kinds):
             continue
         ma = apply_model(base, a)
-        for b in menu(len(ma.ids)):
+        for b in menu(len(ma.ids), second=True):
+            if kinds and b[0] not in kinds:
+                continue
             if legal(ma, b):
                 out.append((a, b))
     return out
@@ -205,6 +297,11 @@ def programs4():
             out.append((("flatten", d, l, style),))
             out.append((("flatten", d, l, style), ("unflatten", d, l)))
     return out
+
+
+def needs_declared(prog):
+    """'linear' needs an authoritative shape of the flattened lower ranks (documented)."""
+    return any(op[0] == "flatten" and _style(op) == "linear" for op in prog)
 
 
 def _fibers(f, prefix=()):
@@ -227,33 +324,69 @@ def _norm_ids(ids):
     return [list(x) if isinstance(x, (list, tuple)) else x for x in ids]
 
 
+def _snap(t):
+    """What a tensor reports and holds (taken when it is made, compared after every later step)."""
+    ids = t.getRankIds()
+    return {"rank-ids": repr(ids), "shape": repr(t.getShape(authoritative=True)), "default": repr(t.getDefault()),
+            "content": content(t), "tree": rawtree(t.getRoot())}
+
+
 def case_compose(case, aspect):
-    """case = (n0, points, declared, (op_a, op_b)); aspect 'C09' or 'C14'."""
-    n0, pts, declared, prog = case
-    shape0 = DIMS[:n0]
+    """case = (n0, points, declared, (op_a, op_b)[, dims]); aspect 'C09' or 'C14'."""
+    n0, pts, declared, prog = case[:4]
+    shape0 = list(case[4]) if len(case) > 4 else DIMS[:n0]
     m = Model(IDS[:n0], shape0, {tuple(p): 10 * i + 1 for i, p in enumerate(pts)})
     feats = {"first:" + prog[0][0], "second:" + (prog[1][0] if len(prog) > 1 else "-"), "ranks:%d" % n0,
              "shape:" + ("declared" if declared else "estimated")}
-    if len(prog[0]) > 3 and prog[0][0] == "flatten":
-        feats.add("style:" + str(prog[0][3]))
+    for op in prog:
+        if op[0] == "flatten" and len(op) > 3:
+            feats.add("style:" + str(op[3]))
+        if op[0] == "split" and _how(op) != "depth":
+            feats.add("split-by:" + _how(op))
     fam = ";".join(op[0] for op in prog)
     out = []
     cur = core.CUR
+    # the model first: a program whose flatten would have to merge stored elements is outside the domain
+    models = [m]
+    try:
+        for op in prog:
+            models.append(apply_model(models[-1], op))
+    except Collision:
+        cur.path("compose:flatten-collision-skipped")
+        return out
     # build the real tensor from the points
-    root = Fiber()
     t = Tensor(rank_ids=IDS[:n0], shape=shape0) if declared else Tensor(rank_ids=IDS[:n0])
     for p, v in m.points.items():
         ref = t.getPayloadRef(*p)
         ref <<= v
+    # every tensor of the chain is snapshotted when made: a later step must leave it alone (C09: "and
+    # nothing else"; C14: it keeps reporting the documented ids / shape / default)
+    made = [(t, _snap(t))]
+    watch = ("rank-ids", "shape", "content", "tree") if aspect == "C09" else ("rank-ids", "shape", "default")
     try:
         r = t
-        for op in prog:
-            m_prev = m
-            r = apply_real(r, op, m)
-            m = apply_model(m, op)
+        for i, op in enumerate(prog):
+            m_prev = models[i]
+            r = apply_real(r, op, m_prev)
+            m = models[i + 1]
+            for j, (tj, sj) in enumerate(made):
+                now = _snap(tj)
+                for what in watch:
+                    if now[what] != sj[what]:
+                        out.append((fam, "earlier-tensor-changed:" + what,
+                                    feats | {"changed:" + ("operand" if j == i else "earlier-intermediate"),
+                                             "by:" + op[0]},
+                                    sj[what], {"tensor": j, "after step": i, "now": now[what]}))
+                        break
+            if out:
+                return out
+            made.append((r, _snap(r)))
     except Exception as ex:
         out.append((fam, "exception:" + type(ex).__name__, feats | {"site:" + core.exc_site(ex)}, None, core.tb_tail(ex)))
         return out
+    for op in prog:
+        if op[0] == "flatten" and len(op) > 3:
+            cur.path("compose:flatten-" + str(op[3]))
     if len(m.points) >= 2:
         cur.nt("compose")
     got = content(r)
@@ -340,9 +473,29 @@ def point_sets(n0, maxpts):
             yield sel
 
 
-def cases(n0, maxpts, declared_modes=(True, False)):
-    progs = programs(n0) if n0 < 4 else programs4()
-    for sel in point_sets(n0, maxpts):
+def point_sets_dims(dims, maxpts):
+    allp = list(itertools.product(*[range(x) for x in dims]))
+    for k in range(0, maxpts + 1):
+        for sel in itertools.combinations(allp, k):
+            yield sel
+
+
+PERM_KINDS = ("swizzle", "swap", "flatten")
+
+
+def cases(n0, maxpts, declared_modes=(True, False), dims=None):
+    """dims=None: the standard extents DIMS[:n0], every program.  dims given (3
+    ranks, pairwise different extents): the programs made of rank permutations
+    and flattens only (a permutation and its inverse then give different shapes)."""
+    if dims is None:
+        progs = programs(n0) if n0 < 4 else programs4()
+        psets = point_sets(n0, maxpts)
+    else:
+        progs = [p for p in programs(n0, dims, PERM_KINDS) if any(op[0] in ("swizzle", "swap") for op in p)]
+        psets = point_sets_dims(dims, maxpts)
+    for sel in psets:
         for declared in declared_modes:
             for prog in progs:
-                yield (n0, sel, declared, prog)
+                if not declared and needs_declared(prog):
+                    continue
+                yield (n0, sel, declared, prog) if dims is None else (n0, sel, declared, prog, tuple(dims))
